@@ -23,7 +23,7 @@ TRUSTED_BASE = [
     '(partial): established for the code by the paired real runs below',
     'paired-run harness harness/props/c12.py over instances of harness/engines/search.py',
 ]
-RENAME_POOL = ['zz', 'y1', 'x', 'w9', 'v', 'u2', 't', 'Aa', 'B1', '0a']
+RENAME_POOL = ['zz', 'y1', ' x', 'w9 ', 'v', 'u2', 't', 'Aa', 'B1', '0a']      # two of them padded with a blank
 
 
 def transform(inst, kind, rng_seed):
@@ -108,10 +108,13 @@ def run_one(inst, resolved, which):
     frame = se.build_frame(inst, id_type=inst.get('id_type', 'str'), date0=inst.get('date0', '2020-01-01'))
     if inst.get('int_dates') is not None:
       frame['date'] = [inst['int_dates'] + int(r[1]) for r in inst['rows']]
+    frame0 = frame.copy(deep=True)
     data = tbrmmdata.TBRMMData(frame, 'response', se.build_elig(inst))
     mm = tbrmatchedmarkets.TBRMatchedMarkets(data, par)
     with core.time_limit(60):
       res = mm.exhaustive_search() if which == 'exhaustive' else mm.greedy_search()
+    if not frame.equals(frame0) or list(frame.dtypes) != list(frame0.dtypes):
+      return {'err': 'CallerFrameModified'}      # the caller's frame must come back as it was given, whatever the ID type
     return {'ok': [{'T': sorted(d.treatment_geos), 'C': sorted(d.control_geos), 'score': [float(v) for v in d.score.score],
                     'corr': float(d.diag.corr), 'impact': float(d.diag.required_impact)} for d in res]}
   except Exception as e:
